@@ -103,6 +103,30 @@ theorem rawCells_ok (g : Grid) (ps cs : List Coord) (h : g.rawCells ps = .ok cs)
         · exact (rawCell_ok g p _ hc).1
         · exact h2 c' hm
 
+/-- the cell Python's list indexing denotes: an index in `-size .. -1` counts from the end -/
+def Grid.aliasCell (g : Grid) (p : Coord) : Coord :=
+  (if p.1 < 0 then p.1 + g.w else p.1, if p.2 < 0 then p.2 + g.h else p.2)
+
+theorem rawCell_ok_alias (g : Grid) (p c : Coord) (h : g.rawCell p = .ok c) : c = g.aliasCell p := by
+  obtain ⟨⟨h1, h2, h3, h4⟩, hx, hy⟩ := rawCell_ok g p c h
+  unfold Grid.aliasCell
+  apply Prod.ext <;> simp only <;> split <;> omega
+
+theorem rawCells_ok_alias (g : Grid) (ps cs : List Coord) (h : g.rawCells ps = .ok cs) : cs = ps.map g.aliasCell := by
+  induction ps generalizing cs with
+  | nil => simp [rawCells] at h; subst h; rfl
+  | cons p ps ih =>
+    unfold rawCells at h
+    cases hc : g.rawCell p with
+    | error e => rw [hc] at h; cases h
+    | ok c =>
+      cases hr : g.rawCells ps with
+      | error e => rw [hc, hr] at h; cases h
+      | ok cs' =>
+        rw [hc, hr] at h
+        cases h
+        rw [List.map_cons, ← ih cs' hr, ← rawCell_ok_alias g p c hc]
+
 theorem rawCells_inGrid (g : Grid) (ps : List Coord) (h : ∀ p ∈ ps, g.inGrid p) : g.rawCells ps = .ok ps := by
   induction ps with
   | nil => rfl
